@@ -63,3 +63,19 @@ class C25E2E(C01):
     """the rest of the exchange on an upgraded connection: as C01"""
     prop = 'C25'
     name = 'upgrade-e2e'
+
+
+from .c03 import C03  # noqa: E402
+
+
+class C25Flow(C03):
+    """'continue as a normal connection': after an upgrade that handed over a
+    non-default INITIAL_WINDOW_SIZE, both sides' send windows (connection and
+    streams, stream 1 included) are the wire-derived ones - the C03 oracle."""
+    prop = 'C25'
+    name = 'upgrade-windows'
+
+    def on_step(self, w, s):
+        nt = self.nontrivial
+        super().on_step(w, s)
+        self.nontrivial = nt
